@@ -1,6 +1,8 @@
 package props
 
 import (
+	"go/token"
+
 	"golang.org/x/tools/go/ssa"
 
 	"obsa/eng"
@@ -107,23 +109,16 @@ func runC06Gaps2(c *eng.Ctx) {
 				continue
 			}
 			clo := mc.Fn.(*ssa.Function)
-			for _, rm := range eng.Calls(clo, `vault\.\(\*ExpirationManager\)\.removeIndexByToken$`) {
+			// the remover is called by the rollback closure itself or by a helper the closure always runs;
+			// the token it is handed is followed back to the variable it is read from
+			for _, e := range nfEffs(nfMust(clo, &nfFrame{call: in.(ssa.CallInstruction)}, nfNamed(`vault\.\(\*ExpirationManager\)\.removeIndexByToken$`), 2)) {
 				n++
 				site := "rollback removes the index of the token it was created for"
-				same := false
-				if u, ok := rm.Common().Args[3].(*ssa.UnOp); ok {
-					if fv, ok := u.X.(*ssa.FreeVar); ok && idxVar != nil {
-						for i, v := range clo.FreeVars {
-							if v == fv && i < len(mc.Bindings) && mc.Bindings[i] == ssa.Value(idxVar) {
-								same = true
-							}
-						}
-					}
-				}
+				same := idxVar != nil && c06CellRead(e.Call.Args[3], e.Fr) == idxVar
 				if same {
-					c.OK(clo, site, rm.Pos(), "removeIndexByToken receives the captured variable handed to createIndexByToken")
+					c.OK(e.Fn, site, e.Call.In.Pos(), "removeIndexByToken receives the captured variable handed to createIndexByToken")
 				} else {
-					c.Violation(clo, site, rm.Pos(), "the rollback of Register removes the index under "+eng.Expr(rm.Common().Args[3])+", not under the variable handed to createIndexByToken: for a batch token (indexed under its parent) a failed registration leaves a dangling index entry", nil)
+					c.Violation(e.Fn, site, e.Call.In.Pos(), "the rollback of Register removes the index under "+eng.Expr(e.Call.Args[3])+", not under the variable handed to createIndexByToken: for a batch token (indexed under its parent) a failed registration leaves a dangling index entry", nil)
 				}
 			}
 		}
@@ -187,4 +182,28 @@ func runC06Gaps2(c *eng.Ctx) {
 			c.Prov(f, "persistToken handed to token creation", cr, cr.Common().Args[3], w.want)
 		}
 	}
+}
+
+// c06CellRead: the variable v is a plain read of — in place, through the free
+// variable of a closure, or through a parameter that was handed such a read
+// (call chain fr); nil when v is anything else.
+func c06CellRead(v ssa.Value, fr *nfFrame) *ssa.Alloc {
+	for depth := 0; depth < 5 && v != nil; depth++ {
+		switch x := v.(type) {
+		case *ssa.UnOp:
+			if x.Op != token.MUL {
+				return nil
+			}
+			return nfCellOf(x.X)
+		case *ssa.Parameter:
+			if fr == nil {
+				return nil
+			}
+			v = nfArgFor(fr.call, x)
+			fr = fr.up
+		default:
+			return nil
+		}
+	}
+	return nil
 }
